@@ -32,6 +32,7 @@ import (
 //   C12:l1-allowed-refused / C12:l2-allowed-refused a well-formed message of a role holder is ERR
 //   C12:err-changed-state                           an ERR changed an observable (partial batch)
 //   C12:batch-not-all-or-nothing                    an Ok batch differs from its inner messages applied one by one
+//   C12:batch-partial-write                         HANDLER level: ExecuteMessages returned an error on a kept branch but wrote something
 //   C12:binding-repointed                           bridge id / addr / chain id / set client id changed
 //   C12:signer-annotation                           GetMsgV1Signers does not return the probed field
 //   C12:l2-oracle-guard                             MsgUpdateOracle from a non-executor is not refused as unauthorized
@@ -555,6 +556,20 @@ func (g *c12L2) infoProbe(repoint int) (*BInfo, bool) {
 		}
 	case 5:
 		return g.binfo(id, addr, chain, client, true, false), false
+	case 6: // same binding, EMPTY client id although one is stored
+		if stored && client != "" {
+			client = ""
+			wf = false
+		}
+	case 7: // a different non-empty client id (allowed only while none is stored)
+		if stored {
+			bi, _ := e.K.BridgeInfo.Get(e.Ctx)
+			client = "07-tendermint-" + fmt.Sprint(7+g.r.Intn(3))
+			if client == bi.L1ClientId {
+				client += "1"
+			}
+			wf = bi.L1ClientId == ""
+		}
 	}
 	return g.binfo(id, addr, chain, client, g.r.Chance(70), true), wf
 }
@@ -619,7 +634,7 @@ func (g *c12L2) probe(kind string, signer string, depth int) (L2Op, bool) {
 	case "setinfo":
 		rp := 0
 		if r.Chance(35) {
-			rp = 1 + r.Intn(5)
+			rp = 1 + r.Intn(7)
 		}
 		bi, w := g.infoProbe(rp)
 		wf = w
@@ -714,14 +729,22 @@ func (g *c12L2) checkBinding(i int) {
 		return
 	}
 	bi, _ := e.K.BridgeInfo.Get(e.Ctx)
-	if g.bound != nil {
-		b := g.bound
-		if bi.BridgeId != b.BridgeId || bi.BridgeAddr != b.BridgeAddr || bi.L1ChainId != b.L1ChainId || (b.L1ClientId != "" && bi.L1ClientId != b.L1ClientId) {
-			g.rep.Violate(Violation{Case: g.c.ID, Step: i, What: fmt.Sprintf("bridge binding re-pointed: (%d,%s,%s,%q) -> (%d,%s,%s,%q)", b.BridgeId, b.BridgeAddr, b.L1ChainId, b.L1ClientId,
-				bi.BridgeId, bi.BridgeAddr, bi.L1ChainId, bi.L1ClientId), Sig: "C12:binding-repointed", Ops: l2OpsHuman(g.c.Ops[:i+1])})
-		}
+	// history-based: [bound] is the FIRST stored binding, its client id the first non-empty
+	// client id ever stored; later states are compared with that, not with the previous state
+	if g.bound == nil {
+		first := bi
+		g.bound = &first
+		return
 	}
-	g.bound = &bi
+	b := g.bound
+	if bi.BridgeId != b.BridgeId || bi.BridgeAddr != b.BridgeAddr || bi.L1ChainId != b.L1ChainId || (b.L1ClientId != "" && bi.L1ClientId != b.L1ClientId) {
+		g.rep.Violate(Violation{Case: g.c.ID, Step: i, What: fmt.Sprintf("bridge binding re-pointed: first stored (%d,%s,%s,%q), now (%d,%s,%s,%q)", b.BridgeId, b.BridgeAddr, b.L1ChainId, b.L1ClientId,
+			bi.BridgeId, bi.BridgeAddr, bi.L1ChainId, bi.L1ClientId), Sig: "C12:binding-repointed", Ops: l2OpsHuman(g.c.Ops[:i+1])})
+		return
+	}
+	if b.L1ClientId == "" && bi.L1ClientId != "" {
+		b.L1ClientId = bi.L1ClientId
+	}
 }
 
 func (g *c12L2) do(o L2Op, wf, expectOK bool, class string) ExecResult {
@@ -758,6 +781,31 @@ func (g *c12L2) do(o L2Op, wf, expectOK bool, class string) ExecResult {
 			}
 		}
 		innerDigest = l2Digest()
+		e.Ctx = saved
+	}
+	// handler level, MsgExecuteMessages only: call the msg server on a branch that is KEPT when it
+	// returns an error (no execAtomic rollback): a refused batch must not have written anything
+	if o.Kind == "exec" {
+		saved := e.Ctx
+		branch, _ := saved.CacheContext()
+		branch = branch.WithEventManager(sdk.NewEventManager())
+		e.Ctx = branch
+		before := l2Digest()
+		var herr error
+		func() {
+			defer func() {
+				if r := recover(); r != nil {
+					herr = nil // a panic is not a returned error; baseapp handles it
+				}
+			}()
+			_, herr = e.Msg.ExecuteMessages(branch, e.RealMsg(o).(*opchildtypes.MsgExecuteMessages))
+		}()
+		if herr != nil {
+			rep.Hist("l2:exec-handler-level:ERR")
+			if after := l2Digest(); after != before {
+				rep.Violate(Violation{Case: c.ID, Step: len(c.Ops), What: "MsgExecuteMessages returned an error (" + herr.Error() + ") but effects of earlier inner messages are written to the caller's context", Sig: "C12:batch-partial-write", Ops: l2OpsHuman(append(c.Ops, o))})
+			}
+		}
 		e.Ctx = saved
 	}
 	res := e.L2Exec(o)
@@ -868,6 +916,34 @@ func c12L2Case(seed uint64, id int, nProbes int, rep *Report) *L2Case {
 	for n := 0; n < nProbes; n++ {
 		if n%12 == 11 {
 			g.oracleProbe()
+		}
+		if n%15 == 14 {
+			// the client id: blank it, then point it elsewhere (two messages of a listed executor)
+			if ok, _ := e.K.BridgeInfo.Has(e.Ctx); ok {
+				if bi, _ := e.K.BridgeInfo.Get(e.Ctx); bi.L1ClientId != "" {
+					_, execs, _ := g.roles()
+					if len(execs) > 0 && g.decode(execs[0]) != nil {
+						a, _ := g.infoProbe(6)
+						g.do(L2Op{Kind: "setinfo", Sender: execs[0], Info: a}, false, false, "client-id-blank")
+						b, wfb := g.infoProbe(7)
+						g.do(L2Op{Kind: "setinfo", Sender: execs[0], Info: b}, wfb, false, "client-id-other")
+						continue
+					}
+				}
+			}
+		}
+		if n%10 == 5 {
+			// a batch of the current admin whose FIRST message succeeds and whose SECOND is rejected
+			// (handler error / signer that is not the authority): nothing may remain
+			admin, _, auth := g.roles()
+			okMsg := L2Op{Kind: "spend", Sender: auth, To: e.User(4).Str, Coins: []HookSend{{Denom: sc.Native, Amt: big.NewInt(1)}}}
+			bad := L2Op{Kind: "spend", Sender: auth, To: e.User(4).Str, Coins: []HookSend{{Denom: sc.Native, Amt: big.NewInt(1000000000)}}}
+			if r.Bool() {
+				bad = L2Op{Kind: "spend", Sender: g.stranger(), To: e.User(4).Str, Coins: []HookSend{{Denom: sc.Native, Amt: big.NewInt(1)}}}
+			}
+			sc.register(admin, bad.Sender, okMsg.To)
+			g.do(L2Op{Kind: "exec", Sender: admin, Inner: []L2Op{okMsg, bad}}, false, false, "batch-ok-then-rejected")
+			continue
 		}
 		if n%9 == 8 {
 			// the CURRENT admin carries one message whose signer is not the authority but would
